@@ -456,14 +456,31 @@ theorem termDeath_some {g : Option Nat} {now : Nat} {d : Option Nat}
     | none => exact ⟨_, rfl⟩
     | some x => exact ⟨_, rfl⟩
 
+/-- giving up never makes a command that was going to end immortal; with `killAfter` it ends whatever it does -/
+theorem Host.giveUp_death_some (c : Cfg) (now : Nat) (h : Host)
+    (hx : ∃ x, termDeath h.grace now h.death = some x) : ∃ x, (Host.giveUp c now h).death = some x := by
+  unfold Host.giveUp; split
+  · exact termDeath_some (Or.inr ⟨_, rfl⟩)
+  · exact hx
+
+/-- THE REPAIR BOUNDS THE TEARDOWN: with `killAfter` a target that is given up on is gone one watchdog period later
+    at the latest -- whatever its script says about its life and about SIGTERM -/
+theorem Host.giveUp_kills {c : Cfg} (hk : c.killAfter = true) (now : Nat) (h : Host) :
+    ∃ d, (Host.giveUp c now h).death = some d ∧ d ≤ now + WDOG_POLL ∧ (Host.giveUp c now h).hold = now + WDOG_POLL := by
+  simp only [Host.giveUp, hk, if_true]
+  cases hd : termDeath h.grace now h.death with
+  | none => exact ⟨_, rfl, Nat.le_refl _, trivial⟩
+  | some x => exact ⟨_, rfl, Nat.min_le_right _ _, trivial⟩
+
 /-- a reading target is given up on (command timeout; SIGTERM forwarded) -/
 theorem minv_timeout {sc : Script} {K now : Nat} {h h' : Host} (hm : MInv sc K h) (hph : h.ph = .reading)
-    (hg : h'.grace = h.grace) (hf : h'.ph = .finished) (hd : h'.death = termDeath h.grace now h.death) :
+    (hg : h'.grace = h.grace) (hf : h'.ph = .finished)
+    (hd : (∃ x, termDeath h.grace now h.death = some x) → ∃ x, h'.death = some x) :
     MInv sc K h' := by
   refine { grace := hg.trans hm.grace, fresh := ?_, rd := ?_, fin := ?_ }
   · intro hp; rw [hf] at hp; simp at hp
   · intro hp; rw [hf] at hp; cases hp
-  · intro _; rw [hd]
+  · intro _; apply hd
     apply termDeath_some
     rcases hm.rd hph with ⟨d, hd, _⟩ | ⟨_, _, _, k, hk, _⟩
     · exact Or.inl ⟨d, hd⟩
@@ -494,7 +511,7 @@ theorem minv_selfTimeout {c : Cfg} {sc : Script} {K now : Nat} {h : Host} (hm : 
   simp only [Host.selfTimeout]
   split
   · rename_i hc
-    exact minv_timeout (now := now) hm hc.2.1 rfl rfl rfl
+    exact minv_timeout (now := now) hm hc.2.1 (by simp) (by simp) (fun hx => Host.giveUp_death_some c now _ hx)
   · exact hm
 
 theorem minv_wakeCore {c : Cfg} {sc : Script} {K now : Nat} {h : Host} (hm : MInv sc K h) (hp : h.ph = .reading) :
@@ -502,7 +519,7 @@ theorem minv_wakeCore {c : Cfg} {sc : Script} {K now : Nat} {h : Host} (hm : MIn
   simp only [Host.wakeCore]
   split
   · split
-    · exact minv_timeout (now := now) hm hp rfl rfl rfl
+    · exact minv_timeout (now := now) hm hp (by simp) (by simp) (fun hx => Host.giveUp_death_some c now _ hx)
     · let x : Host := { h with intr := false }
       have hxm : MInv sc K x := ⟨hm.grace, hm.fresh, hm.rd, hm.fin⟩
       have hf := pollRound_frame now x
@@ -613,22 +630,22 @@ structure Imm (h : Host) : Prop where
 theorem imm_init (c : Cfg) (sc : Script) (hg : sc.grace = none) : Imm (initHost c sc) := by
   constructor <;> simp [initHost, hg]
 
-theorem wakeCore_immortal {c : Cfg} {now : Nat} {h : Host} (hd : h.death = none) (hg : h.grace = none) :
-    (h.wakeCore c now).death = none := by
+theorem wakeCore_immortal {c : Cfg} (hka : c.killAfter = false) {now : Nat} {h : Host} (hd : h.death = none)
+    (hg : h.grace = none) : (h.wakeCore c now).death = none := by
   simp only [Host.wakeCore]
   split
   · split
-    · simp [termDeath, hd, hg]
+    · simp [Host.giveUp, hka, termDeath, hd, hg]
     · rw [(pollRound_td _ _).2.1]; exact hd
   · split
     · rw [(oneRound_td _ _).2.1]; exact hd
     · rw [(pollRound_td _ _).2.1]; exact hd
 
-theorem selfTimeout_immortal {c : Cfg} {now : Nat} {h : Host} (hd : h.death = none) (hg : h.grace = none) :
-    (h.selfTimeout c now).death = none := by
+theorem selfTimeout_immortal {c : Cfg} (hka : c.killAfter = false) {now : Nat} {h : Host} (hd : h.death = none)
+    (hg : h.grace = none) : (h.selfTimeout c now).death = none := by
   simp only [Host.selfTimeout]
   split
-  · simp [termDeath, hd, hg]
+  · simp [Host.giveUp, hka, termDeath, hd, hg]
   · exact hd
 
 /-- a poll round gives a result only by finishing the target -/
@@ -657,7 +674,8 @@ theorem selfTimeout_early {c : Cfg} {now : Nat} {x : Host} (hx : x.res ≠ .none
   · simp
   · exact hx
 
-theorem imm_hostStep {c : Cfg} {sc : Script} {now : Nat} {h : Host} {lo : Local} (hl : sc.life = none)
+theorem imm_hostStep {c : Cfg} {sc : Script} {now : Nat} {h : Host} {lo : Local} (hka : c.killAfter = false)
+    (hl : sc.life = none)
     (him : Imm h) (hpre : LocalPre h lo) : Imm (hostStep c sc now h lo) := by
   have hgr := (hostStep_reaped c sc now h lo).2
   obtain ⟨h1, h2, h3, h4, h5⟩ := hpre
@@ -707,7 +725,7 @@ theorem imm_hostStep {c : Cfg} {sc : Script} {now : Nat} {h : Host} {lo : Local}
       exact selfTimeout_early (wakeCore_early hr)
     · intro _
       simp only [hostStep]
-      exact selfTimeout_immortal (wakeCore_immortal hd him.grace) ((wakeCore_td _ _ _).2.trans him.grace)
+      exact selfTimeout_immortal hka (wakeCore_immortal hka hd him.grace) ((wakeCore_td _ _ _).2.trans him.grace)
   | scan =>
     simp only [hostStep]; split
     · exact ⟨him.grace, him.early, him.started⟩
@@ -719,7 +737,7 @@ theorem imm_hostStep {c : Cfg} {sc : Script} {now : Nat} {h : Host} {lo : Local}
   | other => exact him
 
 theorem imm_exec {v f c scripts} {ls : List Label} {s : St} (he : Exec (init v f c scripts) ls s) {j : Nat}
-    (hj : j < scripts.length) (hl : (scripts.getD j defaultScript).life = none)
+    (hka : c.killAfter = false) (hj : j < scripts.length) (hl : (scripts.getD j defaultScript).life = none)
     (hg : (scripts.getD j defaultScript).grace = none) : Imm (s.host j) := by
   induction he with
   | nil =>
@@ -731,6 +749,127 @@ theorem imm_exec {v f c scripts} {ls : List Label} {s : St} (he : Exec (init v f
     obtain ⟨hc, hscr, hlen, _⟩ := ginv_exec he'
     have hj' : j < s1.hs.length := by rw [hlen]; exact hj
     rw [host_local' hs hj']
-    exact imm_hostStep (by simp only [St.script, hscr]; exact hl) ih (local_pre hti hs hj')
+    exact imm_hostStep (by rw [hc]; exact hka) (by simp only [St.script, hscr]; exact hl) ih (local_pre hti hs hj')
+
+/-! ## the grace wait exists only with `killAfter` -/
+
+theorem hostStep_hold_off {c : Cfg} (hka : c.killAfter = false) (sc : Script) (now : Nat) (h : Host) (lo : Local) :
+    (hostStep c sc now h lo).hold = h.hold := by
+  have hp : ∀ x : Host, (x.pollRound now).hold = x.hold := by
+    intro x; simp only [Host.pollRound]; split <;> rfl
+  have ho : ∀ x : Host, (x.oneRound now).hold = x.hold := by
+    intro x; simp only [Host.oneRound]; split <;> rfl
+  have hw : ∀ x : Host, (x.wakeCore c now).hold = x.hold := by
+    intro x; simp only [Host.wakeCore]
+    split
+    · split
+      · rw [Host.giveUp_off hka]
+      · rw [hp]
+    · split
+      · rw [ho]
+      · rw [hp]
+  have hs : ∀ x : Host, (x.selfTimeout c now).hold = x.hold := by
+    intro x; simp only [Host.selfTimeout]; split
+    · rw [Host.giveUp_off hka]
+    · rfl
+  cases lo with
+  | create | connBegin | other => rfl
+  | connEnd =>
+    simp only [hostStep]; split
+    · rfl
+    · split
+      · rw [hp]
+      · rfl
+      · rfl
+  | wake => simp only [hostStep]; rw [hs, hw]
+  | scan => simp only [hostStep]; split <;> rfl
+  | destEnd => simp only [hostStep]; split <;> rfl
+
+/-- on the tree as it is (`killAfter = false`) no worker ever waits before its teardown -/
+theorem hold_exec {v f c scripts} {ls : List Label} {s : St} (he : Exec (init v f c scripts) ls s)
+    (hka : c.killAfter = false) {j : Nat} (hj : j < scripts.length) : (s.host j).hold = 0 := by
+  induction he with
+  | nil => rw [host_init v f c scripts hj]; rfl
+  | snoc he' hs ih =>
+    rename_i ls0 s1 l0 s2
+    obtain ⟨hc, _, hlen, _⟩ := ginv_exec he'
+    have hj' : j < s1.hs.length := by rw [hlen]; exact hj
+    rw [host_local' hs hj', hostStep_hold_off (by rw [hc]; exact hka)]
+    exact ih
+
+/-! ## with `killAfter` a target that was given up on is gone when its grace wait is over -/
+
+/-- given up on => finished, and the command is gone by the instant before which the teardown does not begin -/
+def KInv (h : Host) : Prop := h.res = .cmdTimedOut → h.ph = .finished ∧ ∃ d, h.death = some d ∧ d ≤ h.hold
+
+theorem kinv_giveUp {c : Cfg} (hk : c.killAfter = true) (now : Nat) (h : Host) (hp : h.ph = .finished) :
+    KInv (Host.giveUp c now h) := by
+  intro _
+  obtain ⟨d, h1, h2, h3⟩ := Host.giveUp_kills hk now h
+  exact ⟨by simp [hp], d, h1, by rw [h3]; exact h2⟩
+
+theorem kinv_round {h h' : Host} (hi : KInv h) (hnf : h.ph ≠ .finished)
+    (hp : (h'.ph = h.ph ∧ h'.res = h.res) ∨ (h'.ph = .finished ∧ h'.res = .done)) : KInv h' := by
+  intro hr
+  rcases hp with hp | hp
+  · rw [hp.2] at hr; exact absurd (hi hr).1 hnf
+  · rw [hp.2] at hr; cases hr
+
+theorem kinv_hostStep {c : Cfg} (hk : c.killAfter = true) {sc : Script} {now : Nat} {h : Host} {lo : Local}
+    (hi : KInv h) (hpre : LocalPre h lo) : KInv (hostStep c sc now h lo) := by
+  obtain ⟨h1, h2, h3, h4, _⟩ := hpre
+  have keep : ∀ h' : Host, h'.res = h.res → h'.ph = h.ph → h'.death = h.death → h'.hold = h.hold → KInv h' := by
+    intro h' e1 e2 e3 e4 hr
+    rw [e1] at hr; rw [e2, e3, e4]; exact hi hr
+  have noRes : ∀ h' : Host, h.ph ≠ .finished → h'.res = h.res → KInv h' := by
+    intro h' hnf e1 hr; rw [e1] at hr; exact absurd (hi hr).1 hnf
+  cases lo with
+  | create => exact noRes _ (by rw [h4 rfl]; simp) rfl
+  | connBegin => exact noRes _ (by rw [h1 rfl]; simp) rfl
+  | other => exact hi
+  | scan => simp only [hostStep]; split
+            · exact keep _ rfl rfl rfl rfl
+            · exact hi
+  | destEnd => simp only [hostStep]; split
+               · exact keep _ rfl rfl rfl rfl
+               · exact keep _ rfl rfl rfl rfl
+  | connEnd =>
+    have hp := h2 rfl
+    simp only [hostStep]; split
+    · intro hr; cases hr
+    · split
+      · refine kinv_round (h := { h with conn := now, ph := .reading, death := sc.life.map (now + ·) }) ?_ (by simp)
+          (pollRound_ph _ _)
+        intro hr; exact absurd (hi hr).1 (by rw [hp]; simp)
+      · intro hr; cases hr
+      · exact hi
+  | wake =>
+    have hp := h3 rfl
+    have hcore : KInv (h.wakeCore c now) := by
+      simp only [Host.wakeCore]
+      split
+      · split
+        · exact kinv_giveUp hk now _ rfl
+        · refine kinv_round (h := { h with intr := false }) ?_ (by simp [hp]) (pollRound_ph _ _)
+          intro hr; exact absurd (hi hr).1 (by rw [hp]; simp)
+      · split
+        · exact kinv_round hi (by rw [hp]; simp) (oneRound_ph _ _)
+        · exact kinv_round hi (by rw [hp]; simp) (pollRound_ph _ _)
+    simp only [hostStep, Host.selfTimeout]
+    split
+    · exact kinv_giveUp hk now _ rfl
+    · exact hcore
+
+theorem kinv_exec {v f c scripts} {ls : List Label} {s : St} (he : Exec (init v f c scripts) ls s)
+    (hk : c.killAfter = true) {j : Nat} (hj : j < scripts.length) : KInv (s.host j) := by
+  induction he with
+  | nil => rw [host_init v f c scripts hj]; intro hr; cases hr
+  | snoc he' hs ih =>
+    rename_i ls0 s1 l0 s2
+    have hti := tinv_exec (tinv_init v f c scripts) he'
+    obtain ⟨hc, _, hlen, _⟩ := ginv_exec he'
+    have hj' : j < s1.hs.length := by rw [hlen]; exact hj
+    rw [host_local' hs hj']
+    exact kinv_hostStep (by rw [hc]; exact hk) ih (local_pre hti hs hj')
 
 end PdshVerif.Dsh.Timed
